@@ -16,7 +16,8 @@ Definition getter_eqb (a b : getter) : bool :=
   match a, b with
   | GFlag i, GFlag j => Nat.eqb i j
   | GPerm, GPerm | GStrFmt, GStrFmt | GReprFmt, GReprFmt | GViewOpts, GViewOpts | GCtx, GCtx | GContextual, GContextual
-  | GDetour, GDetour | GTimeit, GTimeit | GDynEval, GDynEval | GLoadTypes, GLoadTypes => true
+  | GDetour, GDetour | GTimeit, GTimeit | GDynEval, GDynEval | GLoadTypes, GLoadTypes
+  | GDynStackL, GDynStackL | GDynStackG, GDynStackG => true
   | _, _ => false
   end.
 Definition comp_eqb (a b : comp) : bool :=
@@ -44,6 +45,8 @@ Definition arule (c : cm) (a old : val) : val :=
   | CViewOpts => py_merge2 old a
   | CContextual => match old, a with VD p, VD vs => VD (contextual_merge p vs) | o, _ => o end
   | CDetour | CApplyWrappers => match old with VD cur => VD (detour_spec cur a) | o => o end
+  | CDynGuard => old
+  | CDynStackL | CDynStackG => match old, a with VS l, VD d => VS (d :: l) | o, _ => o end
   end.
 
 (* entering, in the specification.  Only a per-thread dynamic_evaluate under a process-wide one fails. *)
@@ -53,6 +56,12 @@ Definition aenter (c : cm) (a : val) (A : astate) : option astate :=
       if is_none (A CDynGlobalRaw) then Some (upd (upd A (CG GDynEval) a) CDynLocalHas v_true) else None
   | CDynEvalGlobal =>
       Some (upd (upd A CDynGlobalRaw a) (CG GDynEval) (if truthy (A CDynLocalHas) then A (CG GDynEval) else a))
+  | CDynGuard =>       (* per-thread and process-wide contexts must not be mixed *)
+      if truthy a
+      then (if truthy (A (CG GDynStackG)) then None else Some A)
+      else (if truthy (A (CG GDynStackL)) then None else Some A)
+  | CDynStackL | CDynStackG =>
+      match a with VD _ => Some (upd A (CG (getter_of c)) (arule c a (A (CG (getter_of c))))) | _ => None end
   | _ => Some (upd A (CG (getter_of c)) (arule c a (A (CG (getter_of c)))))
   end.
 
@@ -107,6 +116,8 @@ Proof.
   - destruct (observe GContextual s); destruct a; reflexivity.
   - destruct (observe GDetour s); reflexivity.
   - destruct (observe GDetour s); reflexivity.
+  - destruct (observe GDynStackL s); destruct a; reflexivity.
+  - destruct (observe GDynStackG s); destruct a; reflexivity.
 Qed.
 
 Lemma comp_eqb_CG : forall q g, comp_eqb (CG q) (CG g) = getter_eqb q g.
@@ -127,9 +138,12 @@ Proof.
     inversion C; subst. eapply (flag_scope_not_fixed i k_dynamic_evaluate init); eauto. simpl. tauto.
 Qed.
 
-Lemma enter_total : forall c a s, c <> CDynEval -> exists s1 sv, cm_enter c a s = Some (s1, sv).
+Definition generic (c : cm) : bool :=
+  match c with CDynEval | CDynEvalGlobal | CDynGuard | CDynStackL | CDynStackG => false | _ => true end.
+
+Lemma enter_total : forall c a s, generic c = true -> exists s1 sv, cm_enter c a s = Some (s1, sv).
 Proof.
-  intros c a [l g] N. destruct c; try congruence; cbn [cm_enter]; unfold lift_enter; cbn [fst snd].
+  intros c a [l g] N. destruct c; try discriminate; cbn [cm_enter]; unfold lift_enter; cbn [fst snd].
   - destruct (nth_error flag_scopes i) as [[k init]|]; [unfold thread_local_value_scope_enter|]; eauto.
   - unfold permission_enter. match goal with |- context [if ?b then _ else _] => destruct b end; eauto.
   - unfold thread_local_arg_scope_enter. eauto.
@@ -140,12 +154,30 @@ Proof.
   - unfold detour_scope_enter. eauto.
   - unfold detour_scope_enter. eauto.
   - unfold timeit_enter. match goal with |- context [if ?b then _ else _] => destruct b end; eauto.
-  - rewrite dyn_enter_global. eauto.
   - destruct (loadtypes_enter_cases a l g) as [[d [E _]]|[E _]]; rewrite E; eauto.
 Qed.
 
-Lemma cm_eq_dyn : forall c, {c = CDynEval} + {c = CDynEvalGlobal} + {c <> CDynEval /\ c <> CDynEvalGlobal}.
-Proof. destruct c; try (right; split; discriminate); [left; left | left; right]; reflexivity. Qed.
+(* a manager whose enter succeeded and that is not one of the two dynamic_evaluate managers: its own getter follows the rule,
+   nothing else changes *)
+Lemma enter_simulates_entered : forall c a s A s1 sv, wt s -> valid_cm c = true -> refines s A ->
+  c <> CDynEval -> c <> CDynEvalGlobal -> cm_enter c a s = Some (s1, sv) ->
+  refines s1 (upd A (CG (getter_of c)) (arule c a (A (CG (getter_of c))))).
+Proof.
+  intros c a s A s1 sv W V R N1 N2 E c'. destruct (enter_keeps_dyn_facts c a s s1 sv E) as [KG KL].
+  destruct c' as [q| |]; unfold upd.
+  - rewrite comp_eqb_CG. destruct (getter_eqb q (getter_of c)) eqn:Q.
+    + apply getter_eqb_spec in Q. subst q. cbn [aobs]. rewrite (effective_enter c a s s1 sv W V E).
+      rewrite (rule_arule c a s N2). rewrite <- (R (CG (getter_of c))). reflexivity.
+    + cbn [aobs]. rewrite <- (R (CG q)). cbn [aobs]. eapply enter_no_interference; eauto.
+      intros ->. rewrite (proj2 (getter_eqb_spec _ _) eq_refl) in Q. discriminate.
+  - assert (comp_eqb CDynGlobalRaw (CG (getter_of c)) = false) as -> by reflexivity. rewrite (KG N2). apply (R CDynGlobalRaw).
+  - assert (comp_eqb CDynLocalHas (CG (getter_of c)) = false) as -> by reflexivity. rewrite (KL N1). apply (R CDynLocalHas).
+Qed.
+
+Lemma stack_read_truthy : forall k st, truthy (stack_read k st) = truthy (tl_get k v_none st) \/ (exists x, st_get k st = Some x /\ forall l, x <> VS l).
+Proof.
+  intros. unfold stack_read, tl_get. destruct (st_get k st) as [[x|x|x]|] eqn:E; auto; right; eexists; split; eauto; congruence.
+Qed.
 
 Lemma enter_simulates : forall c a s A, wt s -> valid_cm c = true -> refines s A ->
   match cm_enter c a s, aenter c a A with
@@ -155,51 +187,63 @@ Lemma enter_simulates : forall c a s A, wt s -> valid_cm c = true -> refines s A
   end.
 Proof.
   intros c a s A W V R.
-  destruct (cm_eq_dyn c) as [[E0|E0]|[N1 N2]]; [subst c | subst c | ].
-  - (* per-thread dynamic_evaluate *)
-    destruct s as [l g]. cbn [cm_enter aenter]. rewrite dyn_enter_thread. rewrite <- (R CDynGlobalRaw). cbn [aobs snd].
-    destruct (is_none (tl_get g_dynamic_evaluate v_none g)) eqn:E; auto.
-    destruct W as [[Ll _] _]. cbn [fst snd] in *.
-    assert (K : k_dynamic_evaluate < length l) by (rewrite Ll; apply Nat.ltb_lt; vm_compute; reflexivity).
-    intros c'. destruct c' as [q| |]; unfold upd; cbn [comp_eqb aobs fst snd].
-    + destruct (getter_eqb q GDynEval) eqn:Q.
-      * apply getter_eqb_spec in Q. subst. unfold observe, get_dynamic_evaluate_fn. cbn [fst snd]. apply tl_get_set_same. assumption.
-      * rewrite <- (R (CG q)). cbn [aobs].
-        assert (QN : q <> getter_of CDynEval) by (intros ->; simpl in Q; discriminate).
-        apply (enter_no_interference CDynEval a (l, g) (tl_set k_dynamic_evaluate a l, g)
-                 [tl_has k_dynamic_evaluate l; tl_get k_dynamic_evaluate v_none l; v_false]); auto;
-          cbn [cm_enter]; rewrite dyn_enter_thread, E; reflexivity.
-    + apply (R CDynGlobalRaw).
-    + unfold tl_has, tl_set. rewrite st_get_set_same by assumption. reflexivity.
-  - (* process-wide dynamic_evaluate *)
-    destruct s as [l g]. cbn [cm_enter aenter]. rewrite dyn_enter_global.
-    destruct W as [_ [Lg _]]. cbn [fst snd] in *.
-    assert (K : g_dynamic_evaluate < length g) by (rewrite Lg; apply Nat.ltb_lt; vm_compute; reflexivity).
-    intros c'. destruct c' as [q| |]; unfold upd; cbn [comp_eqb aobs fst snd].
-    + destruct (getter_eqb q GDynEval) eqn:Q.
-      * apply getter_eqb_spec in Q. subst. rewrite <- (R CDynLocalHas), <- (R (CG GDynEval)).
-        cbn [aobs]. unfold observe, get_dynamic_evaluate_fn. cbn [fst snd]. rewrite tl_get_set_same by assumption.
-        unfold tl_has, tl_get, k_dynamic_evaluate.
-        match goal with |- context [st_get ?k l] => destruct (st_get k l) end; reflexivity.
-      * rewrite <- (R (CG q)). cbn [aobs].
-        assert (QN : q <> getter_of CDynEvalGlobal) by (intros ->; simpl in Q; discriminate).
-        apply (enter_no_interference CDynEvalGlobal a (l, g) (l, tl_set g_dynamic_evaluate a g)
-                 [v_false; tl_get g_dynamic_evaluate v_none g; v_false]); auto;
-          cbn [cm_enter]; rewrite dyn_enter_global; reflexivity.
-    + apply tl_get_set_same. assumption.
-    + apply (R CDynLocalHas).
-  - (* every other manager *)
-    destruct (enter_total c a s N1) as [s1 [sv E]]. rewrite E.
-    assert (AE : aenter c a A = Some (upd A (CG (getter_of c)) (arule c a (A (CG (getter_of c)))))) by (destruct c; try reflexivity; congruence).
-    rewrite AE. intros c'. destruct (enter_keeps_dyn_facts c a s s1 sv E) as [KG KL].
-    destruct c' as [q| |]; unfold upd.
-    + rewrite comp_eqb_CG. destruct (getter_eqb q (getter_of c)) eqn:Q.
-      * apply getter_eqb_spec in Q. subst q. cbn [aobs]. rewrite (effective_enter c a s s1 sv W V E).
-        rewrite (rule_arule c a s N2). rewrite <- (R (CG (getter_of c))). reflexivity.
-      * cbn [aobs]. rewrite <- (R (CG q)). cbn [aobs]. eapply enter_no_interference; eauto.
-        intros ->. rewrite (proj2 (getter_eqb_spec _ _) eq_refl) in Q. discriminate.
-    + assert (comp_eqb CDynGlobalRaw (CG (getter_of c)) = false) as -> by reflexivity. rewrite (KG N2). apply (R CDynGlobalRaw).
-    + assert (comp_eqb CDynLocalHas (CG (getter_of c)) = false) as -> by reflexivity. rewrite (KL N1). apply (R CDynLocalHas).
+  destruct (generic c) eqn:G.
+  - (* every ordinary manager: entering always succeeds *)
+    destruct (enter_total c a s G) as [s1 [sv E]]. rewrite E.
+    assert (AE : aenter c a A = Some (upd A (CG (getter_of c)) (arule c a (A (CG (getter_of c)))))) by (destruct c; try reflexivity; discriminate).
+    rewrite AE. eapply enter_simulates_entered; eauto; intros ->; discriminate.
+  - destruct c; try discriminate; clear G.
+    + (* per-thread dynamic_evaluate *)
+      destruct s as [l g]. cbn [cm_enter aenter]. rewrite dyn_enter_thread. rewrite <- (R CDynGlobalRaw). cbn [aobs snd].
+      destruct (is_none (tl_get g_dynamic_evaluate v_none g)) eqn:E; auto.
+      destruct W as [[Ll _] _]. cbn [fst snd] in *.
+      assert (K : k_dynamic_evaluate < length l) by (rewrite Ll; apply Nat.ltb_lt; vm_compute; reflexivity).
+      intros c'. destruct c' as [q| |]; unfold upd; cbn [comp_eqb aobs fst snd].
+      * destruct (getter_eqb q GDynEval) eqn:Q.
+        -- apply getter_eqb_spec in Q. subst. unfold observe, get_dynamic_evaluate_fn. cbn [fst snd]. apply tl_get_set_same. assumption.
+        -- rewrite <- (R (CG q)). cbn [aobs].
+          assert (QN : q <> getter_of CDynEval) by (intros ->; simpl in Q; discriminate).
+          apply (enter_no_interference CDynEval a (l, g) (tl_set k_dynamic_evaluate a l, g)
+                   [tl_has k_dynamic_evaluate l; tl_get k_dynamic_evaluate v_none l; v_false]); auto;
+            cbn [cm_enter]; rewrite dyn_enter_thread, E; reflexivity.
+      * apply (R CDynGlobalRaw).
+      * unfold tl_has, tl_set. rewrite st_get_set_same by assumption. reflexivity.
+    + (* process-wide dynamic_evaluate *)
+      destruct s as [l g]. cbn [cm_enter aenter]. rewrite dyn_enter_global.
+      destruct W as [_ [Lg _]]. cbn [fst snd] in *.
+      assert (K : g_dynamic_evaluate < length g) by (rewrite Lg; apply Nat.ltb_lt; vm_compute; reflexivity).
+      intros c'. destruct c' as [q| |]; unfold upd; cbn [comp_eqb aobs fst snd].
+      * destruct (getter_eqb q GDynEval) eqn:Q.
+        -- apply getter_eqb_spec in Q. subst. rewrite <- (R CDynLocalHas), <- (R (CG GDynEval)).
+          cbn [aobs]. unfold observe, get_dynamic_evaluate_fn. cbn [fst snd]. rewrite tl_get_set_same by assumption.
+          unfold tl_has, tl_get, k_dynamic_evaluate.
+          match goal with |- context [st_get ?k l] => destruct (st_get k l) end; reflexivity.
+        -- rewrite <- (R (CG q)). cbn [aobs].
+          assert (QN : q <> getter_of CDynEvalGlobal) by (intros ->; simpl in Q; discriminate).
+          apply (enter_no_interference CDynEvalGlobal a (l, g) (l, tl_set g_dynamic_evaluate a g)
+                   [v_false; tl_get g_dynamic_evaluate v_none g; v_false]); auto;
+            cbn [cm_enter]; rewrite dyn_enter_global; reflexivity.
+      * apply tl_get_set_same. assumption.
+      * apply (R CDynLocalHas).
+    + (* the mixing guard: decided by the truth value of the two stacks, which the specification sees through the getters *)
+      destruct s as [l g]. cbn [cm_enter aenter]. unfold dynguard_enter. cbn [fst snd].
+      destruct W as [[Ll Wl] [Lg Wg]]. cbn [fst snd] in *.
+      assert (TG : truthy (A (CG GDynStackG)) = truthy (tl_get g_dynstack v_none g)).
+      { rewrite <- (R (CG GDynStackG)). cbn [aobs]. unfold observe. cbn [snd].
+        destruct (stack_read_truthy g_dynstack g) as [T|[x [E N]]]; auto.
+        exfalso. specialize (Wg g_dynstack). replace (gclass g_dynstack) with KStack in Wg by reflexivity. rewrite E in Wg.
+        destruct x; try discriminate Wg. eapply N; eauto. }
+      assert (TL : truthy (A (CG GDynStackL)) = truthy (tl_get k_dynstack v_none l)).
+      { rewrite <- (R (CG GDynStackL)). cbn [aobs]. unfold observe. cbn [fst].
+        destruct (stack_read_truthy k_dynstack l) as [T|[x [E N]]]; auto.
+        exfalso. specialize (Wl k_dynstack). replace (lclass k_dynstack) with KStack in Wl by reflexivity. rewrite E in Wl.
+        destruct x; try discriminate Wl. eapply N; eauto. }
+      rewrite TG, TL. destruct (truthy a); match goal with |- context [if ?b then _ else _] => destruct b end; auto.
+    + (* the stack of per-thread contexts *)
+      destruct a as [x|d|x]; cbn [cm_enter aenter]; auto.
+      eapply (enter_simulates_entered CDynStackL (VD d) s A); eauto; try discriminate. reflexivity.
+    + destruct a as [x|d|x]; cbn [cm_enter aenter]; auto.
+      eapply (enter_simulates_entered CDynStackG (VD d) s A); eauto; try discriminate. reflexivity.
 Qed.
 
 (* --- REFINEMENT: every program, from every well-typed state ------------------------------------------------------ *)
